@@ -7,7 +7,7 @@
 (***************************************************************************)
 EXTENDS Steps, Json
 
-CONSTANTS K, MaxExec, Limit, MaxCancels
+CONSTANTS K, MaxExec, Limit, MaxCancels, Relimits
 VARIABLES hist, ncancel
 vars == <<steps, max, cancel, phase, pc, execs, hist, ncancel>>
 
@@ -25,10 +25,15 @@ Next ==
   \* ... or between executions
   \/ \E r \in {1, 2} : ncancel < MaxCancels /\ phase = "idle" /\ ExtCancel(r) /\ Log(<<"icancel", r>>) /\ ncancel' = ncancel + 1
   \/ (Uncancel /\ cancel # 0 /\ Len(execs) < MaxExec /\ Log(<<"uncancel", 0>>) /\ UNCHANGED ncancel)
+  \* the host sets another limit between two executions (at most once per history)
+  \/ \E n \in Relimits : /\ Len(execs) >= 1 /\ Len(execs) < MaxExec /\ \A j \in 1..Len(hist) : hist[j][1] # "setlimit"
+                           /\ SetLimit(n) /\ Log(<<"setlimit", n>>) /\ UNCHANGED ncancel
 
 \* with limit N fewer than N instructions ever execute on the thread
 Executed == LET RECURSIVE Sum(_) Sum(s) == IF s = <<>> THEN 0 ELSE s[1][1] + Sum(Tail(s)) IN Sum(execs) + pc
-UnderLimit == Limit > 0 => Executed < Limit
+NoRelimit == \A j \in 1..Len(hist) : hist[j][1] # "setlimit"
+UnderLimit == /\ (Limit > 0 /\ NoRelimit) => Executed < Limit
+              /\ (max > 0 /\ phase = "exec") => steps < max        \* an instruction executes only below the current limit
 \* first reason wins; a reason only disappears through Uncancel
 FirstWins == [][cancel # 0 => cancel' \in {cancel, 0}]_vars
 \* once cancelled, at most the instruction already past the test executes
